@@ -61,6 +61,7 @@ type Event struct {
 	Old  client.Object
 	New  client.Object
 	Seq  uint64
+	Commut bool
 }
 
 // Write is one committed write (entry of the write log).
@@ -76,6 +77,7 @@ type Write struct {
 	New     client.Object // nil on removal
 	Fault   string
 	Removed bool
+	Commut  bool
 }
 
 type AdmissionFunc func(op string, gvk schema.GroupVersionKind, old, new client.Object, actor string) (client.Object, error)
@@ -343,9 +345,10 @@ func specChanged(a, b client.Object) bool {
 }
 
 type writeCtx struct {
-	Actor string
-	RecID uint64
-	Fault string
+	Actor  string
+	RecID  uint64
+	Fault  string
+	Commut bool // write belongs to a group whose internal order is undefined (Go map iteration in the caller)
 }
 
 func (s *Store) emit(w *Write, ev Event) {
@@ -353,6 +356,7 @@ func (s *Store) emit(w *Write, ev Event) {
 	w.Seq = s.seq
 	w.Time = s.Now()
 	ev.Seq = w.Seq
+	ev.Commut = w.Commut
 	s.Log = append(s.Log, w)
 	for _, f := range s.OnCommit {
 		f(w)
@@ -404,7 +408,7 @@ func (s *Store) Create(ctx writeCtx, obj client.Object) error {
 	cand.SetResourceVersion(fmt.Sprint(s.rv))
 	s.objs[k] = cand
 	s.insertKey(k)
-	s.emit(&Write{Actor: ctx.Actor, RecID: ctx.RecID, Verb: "create", Key: k, GVK: gvk, New: cand, Fault: ctx.Fault},
+	s.emit(&Write{Actor: ctx.Actor, RecID: ctx.RecID, Verb: "create", Key: k, GVK: gvk, New: cand, Fault: ctx.Fault, Commut: ctx.Commut},
 		Event{Type: EvAdded, Key: k, GVK: gvk, New: cand})
 	return s.into(cand, obj, gvk)
 }
@@ -469,12 +473,12 @@ func (s *Store) finish(ctx writeCtx, verb string, k ObjKey, gvk schema.GroupVers
 		// last finalizer removed: the object disappears
 		delete(s.objs, k)
 		s.removeKey(k)
-		s.emit(&Write{Actor: ctx.Actor, RecID: ctx.RecID, Verb: verb, Key: k, GVK: gvk, Old: old, New: nil, Removed: true, Fault: ctx.Fault},
+		s.emit(&Write{Actor: ctx.Actor, RecID: ctx.RecID, Verb: verb, Key: k, GVK: gvk, Old: old, New: nil, Removed: true, Fault: ctx.Fault, Commut: ctx.Commut},
 			Event{Type: EvDeleted, Key: k, GVK: gvk, Old: cand})
 		return cand, nil
 	}
 	s.objs[k] = cand
-	s.emit(&Write{Actor: ctx.Actor, RecID: ctx.RecID, Verb: verb, Key: k, GVK: gvk, Old: old, New: cand, Fault: ctx.Fault},
+	s.emit(&Write{Actor: ctx.Actor, RecID: ctx.RecID, Verb: verb, Key: k, GVK: gvk, Old: old, New: cand, Fault: ctx.Fault, Commut: ctx.Commut},
 		Event{Type: EvModified, Key: k, GVK: gvk, Old: old, New: cand})
 	return cand, nil
 }
@@ -593,13 +597,13 @@ func (s *Store) Delete(ctx writeCtx, obj client.Object, opts ...client.DeleteOpt
 		s.rv++
 		cand.SetResourceVersion(fmt.Sprint(s.rv))
 		s.objs[k] = cand
-		s.emit(&Write{Actor: ctx.Actor, RecID: ctx.RecID, Verb: "delete", Key: k, GVK: gvk, Old: old, New: cand, Fault: ctx.Fault},
+		s.emit(&Write{Actor: ctx.Actor, RecID: ctx.RecID, Verb: "delete", Key: k, GVK: gvk, Old: old, New: cand, Fault: ctx.Fault, Commut: ctx.Commut},
 			Event{Type: EvModified, Key: k, GVK: gvk, Old: old, New: cand})
 		return nil
 	}
 	delete(s.objs, k)
 	s.removeKey(k)
-	s.emit(&Write{Actor: ctx.Actor, RecID: ctx.RecID, Verb: "delete", Key: k, GVK: gvk, Old: old, Removed: true, Fault: ctx.Fault},
+	s.emit(&Write{Actor: ctx.Actor, RecID: ctx.RecID, Verb: "delete", Key: k, GVK: gvk, Old: old, Removed: true, Fault: ctx.Fault, Commut: ctx.Commut},
 		Event{Type: EvDeleted, Key: k, GVK: gvk, Old: old})
 	return nil
 }
